@@ -482,7 +482,7 @@ Definition blen (b : str) : N := N.of_nat (length b).
 (* ---- HAR (cassettes.py:358-435) ---- *)
 Record har_resp := {
   hr_status : N; hr_text : str; hr_version : str; hr_headers : list (str * str);
-  hr_mime : str; hr_content : payload; hr_base64 : bool; hr_size : N; hr_redirect : str }.
+  hr_mime : str; hr_content : option payload; hr_base64 : bool; hr_size : N; hr_redirect : str }.
 Record hentry := {
   he_method : str; he_url : str; he_version : str; he_headers : list (str * str);
   he_post : option (str * payload); he_body_size : N; he_resp : option har_resp }.
@@ -497,7 +497,9 @@ Definition har_resp_of (preserve : bool) (p : xresp) : har_resp :=
   {| hr_status := p_status p; hr_text := p_message p; hr_version := [72;84;84;80;47] ++ p_version p;   (* HTTP/ + version, 385 *)
      hr_headers := first_values (p_headers p);
      hr_mime := first_of (hget s_content_type (p_headers p));      (* 374: the keys were lower-cased by Response.__init__ *)
-     hr_content := if preserve then B64 (p_content p) else Utf8Replace (p_content p);
+     (* 378-382: encoded_body is None for an empty payload *)
+     hr_content := if preserve then match p_content p with [] => None | _ => Some (B64 (p_content p)) end
+                   else Some (Utf8Replace (p_content p));
      hr_base64 := preserve;                                         (* 383: content is never None *)
      hr_size := blen (p_content p);
      hr_redirect := first_of (hget s_location (p_headers p)) |}.
